@@ -3,12 +3,14 @@ undo with git checkout.  usage: /venv/bin/python tools/mutants.py [id-prefix ...
 A break is 'caught' when the check exits 1 with a VIOLATION line; exit 2/3 is reported as such."""
 import json, subprocess, sys, os
 from pathlib import Path
-REPO = Path("/repo")
+# the breaks are applied to a scratch worktree of /repo's HEAD (never to /repo itself: other runs may be using it);
+# the checks are pointed at it through LADIM2_REPO
+REPO = Path(os.environ.get("MUT_WORKTREE", "/tmp/vmon_mut_wt"))
+subprocess.run(["git", "-C", "/repo", "worktree", "remove", "--force", str(REPO)], capture_output=True)
+subprocess.run(["git", "-C", "/repo", "worktree", "add", "-q", "--detach", str(REPO), "HEAD"], check=True)
+os.environ["LADIM2_REPO"] = str(REPO)
 M = json.loads(Path("mutants.json").read_text())
 sel = sys.argv[1:]
-dirty = subprocess.run(["git", "-C", str(REPO), "status", "--porcelain", "--untracked-files=no"], capture_output=True, text=True).stdout.strip()
-if dirty:
-    sys.exit("repo dirty, refusing")
 rows = []
 for m in M:
     if sel and not any(m["id"].startswith(s) or s in m["props"] for s in sel):
@@ -29,6 +31,7 @@ for m in M:
             print(rows[-1], flush=True)
     finally:
         subprocess.run(["git", "-C", str(REPO), "checkout", "--", "."], check=True)
+subprocess.run(["git", "-C", "/repo", "worktree", "remove", "--force", str(REPO)], capture_output=True)
 print()
 for r in rows:
     print("%-6s %-22s %s" % r)
